@@ -225,6 +225,25 @@ def variants():
         ("range lower bound ignored when search on",
          {"optimal_fit_edelta": True, "range_x": [-1e-6, 1e-6]},
          {"optimal_fit_edelta": True, "range_x": [-2e-6, 1e-6]}),
+        # the plateau-search flag given as a numpy boolean (e.g. from np.any(...)) or as 0 / 1
+        ("numpy bool search flag (on)", {"optimal_fit_edelta": True, "range_x": [-1e-6, 1e-6]},
+         {"optimal_fit_edelta": np.True_, "range_x": [-1e-6, 1e-6]}),
+        ("int search flag (on)", {"optimal_fit_edelta": True, "range_x": [-1e-6, 1e-6]},
+         {"optimal_fit_edelta": 1, "range_x": [-1e-6, 1e-6]}),
+        ("numpy bool search flag (off)", {"optimal_fit_edelta": False}, {"optimal_fit_edelta": np.False_}),
+        ("int search flag (off)", {"optimal_fit_edelta": False}, {"optimal_fit_edelta": 0}),
+        ("nsamples ignored when search off (numpy bool flag)",
+         {"optimal_fit_edelta": np.False_, "optimal_fit_num_samples": 10},
+         {"optimal_fit_edelta": np.False_, "optimal_fit_num_samples": 50}),
+        ("nsamples ignored when search off (flag 0)",
+         {"optimal_fit_edelta": 0, "optimal_fit_num_samples": 10},
+         {"optimal_fit_edelta": 0, "optimal_fit_num_samples": 50}),
+        ("range lower bound ignored when search on (numpy bool flag)",
+         {"optimal_fit_edelta": np.True_, "range_x": [-1e-6, 1e-6]},
+         {"optimal_fit_edelta": np.True_, "range_x": [-2e-6, 1e-6]}),
+        ("range lower bound ignored when search on (flag 1)",
+         {"optimal_fit_edelta": 1, "range_x": [-1e-6, 1e-6]},
+         {"optimal_fit_edelta": 1, "range_x": [-2e-6, 1e-6]}),
     ]
 
 
